@@ -521,6 +521,12 @@ def main(argv=None):
     ap.add_argument("--budget", type=float, default=None)
     ap.add_argument("--one", type=int, default=None, help="run a single run index in-process and print the result")
     a = ap.parse_args(argv)
+    for stream in (sys.stdout, sys.stderr):
+        # messages quote file names that are not valid UTF-8 (lone surrogates): never let printing them fail or emit raw bytes
+        try:
+            stream.reconfigure(errors="backslashreplace")
+        except (AttributeError, ValueError):
+            pass
     if os.environ.get("PYTHONHASHSEED") is None:
         os.environ["PYTHONHASHSEED"] = "0"
         os.execv(sys.executable, [sys.executable, os.path.join(VERIF, "check")] + (argv if argv is not None else sys.argv[1:]))
